@@ -607,7 +607,18 @@ impl<'a> Resolver<'a> {
                 let t = self.time(*dt);
                 let resp: OrderResponseCancel = OrderResponseCancel {
                     key: self.order_key(*cid, inst),
-                    state: if *ok { Ok(Cancelled { id: OrderId::new(format!("oid-{cid}")), time_exchange: t }) } else { Err(OrderError::Connectivity(ConnectivityError::Timeout)) },
+                    state: if *ok {
+                        Ok(Cancelled { id: OrderId::new(format!("oid-{cid}")), time_exchange: t })
+                    } else {
+                        // what the exchange / the execution manager can answer to a cancel it did not perform
+                        Err(match dt.rem_euclid(5) {
+                            0 => OrderError::Connectivity(ConnectivityError::Timeout),
+                            1 => OrderError::Rejected(ApiError::OrderAlreadyCancelled),
+                            2 => OrderError::Rejected(ApiError::OrderAlreadyFullyFilled),
+                            3 => OrderError::Rejected(ApiError::RateLimit),
+                            _ => OrderError::Rejected(ApiError::OrderRejected("rejected".into())),
+                        })
+                    },
                 };
                 EngineEvent::Account(AccountStreamEvent::Item(AccountEvent { exchange: self.exchange_of(inst), kind: AccountEventKind::OrderCancelled(resp) }))
             }
